@@ -78,9 +78,11 @@ fn describe_session(s: &Session) -> String {
 #[allow(clippy::too_many_arguments)]
 /// mask bit: after every cancellation a command is sent before receive() is called again
 pub const SEND_AFTER_CANCEL: u64 = 1 << 47;
+/// (round 7) the session is driven through `command()` - send and receive in one call - instead of `receive()`
+pub const VIA_COMMAND: u64 = 1 << 31;
 
 pub fn check_session(kind: &str, stream: &[u8], cuts: &[usize], flavor: Flavor, mask: u64, end: EndAnswer, expect: &Expect, probe: bool, acc: &mut Acc, sigf: &dyn Fn(&Session) -> String) {
-    let script = Script { stream, cuts, end, pending_mask: mask & 0xffff_ffff, cancel_mask: (mask >> 32) & 0x7fff, cancel_twice_mask: mask >> 48, send_after_cancel: mask & SEND_AFTER_CANCEL != 0 };
+    let script = Script { stream, cuts, end, pending_mask: mask & 0x7fff_ffff, cancel_mask: (mask >> 32) & 0x7fff, cancel_twice_mask: mask >> 48, send_after_cancel: mask & SEND_AFTER_CANCEL != 0, via_command: mask & VIA_COMMAND != 0 };
     let (s, st) = run_session(flavor, &script, expect.responses.len() + 2, probe);
     acc.sessions += 1;
     acc.reads += st.reads.get();
@@ -422,13 +424,24 @@ pub fn huge_line_stream() -> Vec<u8> {
 fn c02_check_stream(stream: &[u8], sets: &[Vec<usize>], pendings: &[u64], acc: &mut Acc) {
     acc.streams += 1;
     // baseline: blocking connection, one read
-    let script = Script { stream, cuts: &[], end: EndAnswer::Eof, pending_mask: 0, cancel_mask: 0, cancel_twice_mask: 0, send_after_cancel: false };
+    let script = Script { stream, cuts: &[], end: EndAnswer::Eof, pending_mask: 0, cancel_mask: 0, cancel_twice_mask: 0, send_after_cancel: false, via_command: false };
     let (base, _) = run_session(Flavor::Sync, &script, 64, false);
     let expect = Expect { responses: base.responses.clone(), ends: vec![base.end.clone()], alt: None };
     if matches!(base.end, Terminal::Panic(_) | Terminal::Hang) {
         // C09's business; still a difference if other segmentations behave differently
     }
-    for cuts in sets {
+    // through command() the end of the stream shows as an error of the command that got no reply: the responses
+    // must be the same ones, the outcome the baseline's (a clean end becomes "ended without a response")
+    let via_cmd_expect = {
+        let end = if base.end == Terminal::Clean { Terminal::UnexpectedEof } else { base.end.clone() };
+        Expect { responses: base.responses.clone(), ends: vec![end], alt: None }
+    };
+    for (ci, cuts) in sets.iter().enumerate() {
+        if ci < 64 || ci % 16 == 0 {
+            for flavor in [Flavor::Sync, Flavor::Async] {
+                check_session("C02", stream, cuts, flavor, VIA_COMMAND, EndAnswer::Eof, &via_cmd_expect, false, acc, &|_s| "C02/segmentation-dependent-through-command".to_string());
+            }
+        }
         for flavor in [Flavor::Sync, Flavor::Async] {
             check_session("C02", stream, cuts, flavor, 0, EndAnswer::Eof, &expect, false, acc, &|_s| "C02/segmentation-dependent".to_string());
         }
@@ -538,11 +551,36 @@ pub fn run_c02(tier: Tier) -> i32 {
             acc
         })
         .reduce(Acc::default, Acc::merge);
-    let mut acc = acc.merge(acc_long).merge(acc_multi).merge(acc_huge).merge(acc_many);
+    // (round 7) a response whose tail is byte-identical to an earlier, complete response on the same connection
+    // (status, then a list that ends with the same status lines): whatever the library remembers of earlier
+    // responses must not show - every single cut, every chunk size
+    let mut acc_rep = Acc::default();
+    for extra in [0usize, 3, 40] {
+        let mut fields: Vec<(&str, String)> = vec![("volume", "50".into()), ("repeat", "0".into()), ("state", "play".into()), ("song", "12".into()), ("elapsed", "1.234".into()), ("bitrate", "320".into()), ("audio", "44100:16:2".into())];
+        for i in 0..extra {
+            fields.push(("x", format!("filler {i}")));
+        }
+        let fr: Vec<(&str, &str)> = fields.iter().map(|(k, v)| (*k, v.as_str())).collect();
+        let r = AFrame::new(&fr);
+        let mut with_head = vec![("file", "x.flac"), ("Title", "t")];
+        with_head.extend(fr.iter().copied());
+        let s2 = AFrame::new(&with_head);
+        for ws in [vec![Wire::Single(r.clone()), Wire::Single(s2.clone()), Wire::Single(r.clone())], vec![Wire::Single(r.clone()), Wire::List(vec![AFrame::new(&[("file", "x.flac")]), r.clone()]), Wire::Single(s2.clone())]] {
+            let (st, _) = encode_items(&ws, BinPos::Last);
+            let n = st.len();
+            let mut sets = upto_k_cuts(n, 1);
+            for c in [1usize, 2, 3, 5, 7, 16, 64] {
+                sets.push(chunked(n, c));
+            }
+            c02_check_stream(&st, &sets, &[0b10], &mut acc_rep);
+            acc_rep.nontrivial += 1;
+        }
+    }
+    let mut acc = acc.merge(acc_long).merge(acc_multi).merge(acc_huge).merge(acc_many).merge(acc_rep);
     acc.samples.push(json!({"well_formed_streams": wf, "truncated_and_corrupted_streams": streams.len() - wf, "long_streams": longs.len()}));
     let cov = proto_coverage(
         &acc,
-        "byte streams = well-formed grammar streams, every truncation and single-byte substitution/deletion/insertion of 8 two-response streams, long responses with boundaries at 4096/8192/16384 +-1 and binary payloads of 4000..8300 bytes, and every sequence of <=2/3 large binary components (10..17000 bytes) as separate responses and as one list, and one text line of 1.2 MB between ordinary responses (8 segmentations), and responses of 1025 / 6000 (thorough: 1023..70000) five-byte lines behind a 40 KB value, in one read and in 1460..2^20-byte reads; x every segmentation of the stated sets x {blocking, async} x Pending answers; each stream is distinct and counts as non-trivial (all have >= 2 segmentations)",
+        "byte streams = well-formed grammar streams, every truncation and single-byte substitution/deletion/insertion of 8 two-response streams, long responses with boundaries at 4096/8192/16384 +-1 and binary payloads of 4000..8300 bytes, and every sequence of <=2/3 large binary components (10..17000 bytes) as separate responses and as one list, and one text line of 1.2 MB between ordinary responses (8 segmentations), and responses of 1025 / 6000 (thorough: 1023..70000) five-byte lines behind a 40 KB value, in one read and in 1460..2^20-byte reads, and responses whose tail repeats an earlier response byte for byte (every single cut); every segmentation also with the session driven through command() instead of receive(); x every segmentation of the stated sets x {blocking, async} x Pending answers; each stream is distinct and counts as non-trivial (all have >= 2 segmentations)",
         json!({"all_compositions_upto_len": all_upto, "upto_2_cuts_upto_len": two_upto, "upto_3_cuts_upto_len": three_upto, "pending_masks": pend, "long_streams": "every (quick: every third) single cut, +-3 around every structural boundary, pairs near boundaries, chunk sizes 1,2,3,7,4095,4096,4097"}),
     );
     finish(&ctx, cov, acc.viol)
@@ -739,7 +777,7 @@ pub fn run_c10(tier: Tier) -> i32 {
         for p in 0..g.len() {
             for cuts in all_compositions(p.max(1)) {
                 for flavor in [Flavor::Sync, Flavor::Async] {
-                    let script = Script { stream: &g[..p], cuts: &cuts, end: EndAnswer::Eof, pending_mask: 0, cancel_mask: 0, cancel_twice_mask: 0, send_after_cancel: false };
+                    let script = Script { stream: &g[..p], cuts: &cuts, end: EndAnswer::Eof, pending_mask: 0, cancel_mask: 0, cancel_twice_mask: 0, send_after_cancel: false, via_command: false };
                     let (r, st) = run_connect(flavor, &script);
                     gacc.sessions += 1;
                     gacc.reads += st.reads.get();
@@ -931,7 +969,7 @@ pub fn run_c09(tier: Tier) -> i32 {
                 // the same bytes as a greeting
                 for flavor in [Flavor::Sync, Flavor::Async] {
                     for cuts in &sets {
-                        let script = Script { stream: s, cuts, end: EndAnswer::Eof, pending_mask: 0, cancel_mask: 0, cancel_twice_mask: 0, send_after_cancel: false };
+                        let script = Script { stream: s, cuts, end: EndAnswer::Eof, pending_mask: 0, cancel_mask: 0, cancel_twice_mask: 0, send_after_cancel: false, via_command: false };
                         let (r, st) = run_connect(flavor, &script);
                         acc.sessions += 1;
                         acc.reads += st.reads.get();
@@ -1105,7 +1143,7 @@ pub fn c18_proto(tier: Tier) -> Acc {
                 };
                 for cuts in &sets {
                     for flavor in [Flavor::Sync, Flavor::Async] {
-                        let script = Script { stream: s, cuts, end: EndAnswer::Eof, pending_mask: 0, cancel_mask: 0, cancel_twice_mask: 0, send_after_cancel: false };
+                        let script = Script { stream: s, cuts, end: EndAnswer::Eof, pending_mask: 0, cancel_mask: 0, cancel_twice_mask: 0, send_after_cancel: false, via_command: false };
                         let (r, st) = run_connect(flavor, &script);
                         acc.sessions += 1;
                         acc.reads += st.reads.get();
@@ -1147,7 +1185,7 @@ pub fn replay(id: &str, case: &Value) -> i32 {
     let mask = case["pending_mask"].as_u64().unwrap_or(0);
     println!("replay {id}: {flavor:?}, {} bytes {:?}, cuts {:?}, pending mask {mask:#b}", stream.len(), show_bytes(&stream[..stream.len().min(300)]), cuts);
     if case["kind"].as_str() == Some("greeting") {
-        let script = Script { stream: &stream, cuts: &cuts, end: EndAnswer::Eof, pending_mask: mask & 0xffff_ffff, cancel_mask: (mask >> 32) & 0xffff, cancel_twice_mask: mask >> 48, send_after_cancel: false };
+        let script = Script { stream: &stream, cuts: &cuts, end: EndAnswer::Eof, pending_mask: mask & 0x7fff_ffff, cancel_mask: (mask >> 32) & 0x7fff, cancel_twice_mask: mask >> 48, send_after_cancel: mask & SEND_AFTER_CANCEL != 0, via_command: mask & VIA_COMMAND != 0 };
         let (r, st) = run_connect(flavor, &script);
         let want = match ref_greeting(&stream) {
             RefGreeting::Version(v) => ConnectResult::Version(v),
@@ -1157,12 +1195,12 @@ pub fn replay(id: &str, case: &Value) -> i32 {
         println!("  connect -> {r:?} after {} reads; reference says {want:?}", st.reads.get());
         return if r == want { println!("replay: property holds on this case"); 0 } else { println!("replay: VIOLATION"); 1 };
     }
-    let script = Script { stream: &stream, cuts: &cuts, end: EndAnswer::Eof, pending_mask: mask & 0xffff_ffff, cancel_mask: (mask >> 32) & 0xffff, cancel_twice_mask: mask >> 48, send_after_cancel: false };
+    let script = Script { stream: &stream, cuts: &cuts, end: EndAnswer::Eof, pending_mask: mask & 0x7fff_ffff, cancel_mask: (mask >> 32) & 0x7fff, cancel_twice_mask: mask >> 48, send_after_cancel: mask & SEND_AFTER_CANCEL != 0, via_command: mask & VIA_COMMAND != 0 };
     let (s, st) = run_session(flavor, &script, 64, id == "C09");
     println!("  session: {}", describe_session(&s));
     println!("  reads: {}", st.reads.get());
     let expect = if id == "C02" {
-        let b = Script { stream: &stream, cuts: &[], end: EndAnswer::Eof, pending_mask: 0, cancel_mask: 0, cancel_twice_mask: 0, send_after_cancel: false };
+        let b = Script { stream: &stream, cuts: &[], end: EndAnswer::Eof, pending_mask: 0, cancel_mask: 0, cancel_twice_mask: 0, send_after_cancel: false, via_command: false };
         let (base, _) = run_session(Flavor::Sync, &b, 64, false);
         println!("  baseline (blocking, one read): {}", describe_session(&base));
         Expect { responses: base.responses, ends: vec![base.end], alt: None }
